@@ -70,6 +70,9 @@ func (e *Engine) verifyFunc(fn *ssa.Function, fs *FuncSpec) (c *vctx) {
 		}
 		log.assert(t)
 	}
+	if !fs.NoFrame {
+		c.frame = e.frameTargets(a, fs, env)
+	}
 	exitSt, results, exitReach := a.run(args, st, tTrue)
 	a.checkCallAnchors()
 	if exitSt == nil {
@@ -107,7 +110,7 @@ func (e *Engine) verifyFunc(fn *ssa.Function, fs *FuncSpec) (c *vctx) {
 		a.obligation("ensures", cl.Label, pos, exitReach, t)
 	}
 	if !fs.NoFrame {
-		e.frameObligations(a, fs, env, exitSt, exitReach)
+		e.frameObligations(a, c.frame, exitSt, exitReach)
 	}
 	return c
 }
@@ -172,26 +175,26 @@ func (e *Engine) verifyLemma(lem *LemmaSpec) (c *vctx) {
 
 var debugPanic = false
 
-// frameObligations: every heap family changed by the function is unchanged outside the modifies targets for all
-// references that were allocated at entry.
-func (e *Engine) frameObligations(a *act, fs *FuncSpec, entryEnv *specEnv, exit *State, reach Term) {
-	c := e.cur
-	type target struct {
-		ref Term
-	}
-	targets := map[string][]Term{} // heap family -> refs that may change
-	wild := map[string]bool{}
-	anything := false
+type frameInfo struct {
+	entry    *State
+	targets  map[string][]Term // heap family -> refs that may change
+	wild     map[string]bool
+	anything bool
+}
+
+// frameTargets evaluates the modifies clauses at function entry.
+func (e *Engine) frameTargets(a *act, fs *FuncSpec, entryEnv *specEnv) *frameInfo {
+	fr := &frameInfo{entry: a.entry, targets: map[string][]Term{}, wild: map[string]bool{}}
 	for _, cl := range fs.Modifies {
 		x := cl.E
 		if x.Op == "ident" && x.Name == "anything" {
-			anything = true
+			fr.anything = true
 			continue
 		}
 		if x.Op == "call" && x.Args[0].Op == "ident" && x.Args[0].Name == "all" {
 			for _, arg := range x.Args[1:] {
 				for _, h := range e.heapsMatching(arg.String()) {
-					wild[h] = true
+					fr.wild[h] = true
 				}
 			}
 			continue
@@ -205,12 +208,12 @@ func (e *Engine) frameObligations(a *act, fs *FuncSpec, entryEnv *specEnv, exit 
 			if sl, ok := v.Typ.Underlying().(*types.Slice); ok && v.T != nil {
 				for _, l := range e.layout(sl.Elem()) {
 					n := elemHeapName(sl.Elem(), l.Path)
-					targets[n] = append(targets[n], v.T[0])
+					fr.targets[n] = append(fr.targets[n], v.T[0])
 				}
 			}
 			continue
 		}
-		lp, t, err := entryEnv.evalLoc(x)
+		lp, _, err := entryEnv.evalLoc(x)
 		if err != nil {
 			a.specError(cl, err)
 			continue
@@ -221,17 +224,23 @@ func (e *Engine) frameObligations(a *act, fs *FuncSpec, entryEnv *specEnv, exit 
 			ls := e.layout(lp.BaseType)
 			for i := 0; i < n; i++ {
 				name := objHeapName(lp.BaseType, ls[off+i].Path)
-				targets[name] = append(targets[name], lp.Base)
+				fr.targets[name] = append(fr.targets[name], lp.Base)
 			}
 		case pkElem:
 			for _, l := range e.layout(lp.BaseType) {
 				name := elemHeapName(lp.BaseType, l.Path)
-				targets[name] = append(targets[name], lp.Base)
+				fr.targets[name] = append(fr.targets[name], lp.Base)
 			}
 		}
-		_ = t
 	}
-	if anything {
+	return fr
+}
+
+// frameObligations: every heap family changed by the function is unchanged outside the modifies targets for all
+// references that were allocated at entry.
+func (e *Engine) frameObligations(a *act, fr *frameInfo, exit *State, reach Term) {
+	c := e.cur
+	if fr == nil || fr.anything {
 		return
 	}
 	var names []string
@@ -240,7 +249,7 @@ func (e *Engine) frameObligations(a *act, fs *FuncSpec, entryEnv *specEnv, exit 
 	}
 	sort.Strings(names)
 	for _, h := range names {
-		if wild[h] {
+		if fr.wild[h] {
 			continue
 		}
 		srt := c.heapSorts[h]
@@ -249,13 +258,6 @@ func (e *Engine) frameObligations(a *act, fs *FuncSpec, entryEnv *specEnv, exit 
 		if h0.S == h1.S {
 			continue
 		}
-		var excl []Term
-		r := Term{"r?frame", SInt}
-		for _, t := range targets[h] {
-			excl = append(excl, app(SBool, "distinct", r, t))
-		}
-		body := implies(and(append([]Term{app(SBool, "<", intLit(0), r), app(SBool, "<", r, a.entry.alloc)}, excl...)...), eq(sel(h1, r), sel(h0, r)))
-		f := Term{fmt.Sprintf("(forall ((r?frame Int)) %s)", body.S), SBool}
-		a.obligation("frame", strings.TrimPrefix(h, "H_"), a.fn.Pos(), reach, f)
+		a.obligation("frame", strings.TrimPrefix(h, "H_"), a.fn.Pos(), reach, frameFormula(h0, h1, a.entry.alloc, fr.targets[h]))
 	}
 }
